@@ -20,6 +20,8 @@ extern "C" int h_getopt_long(int, char *const *, const char *, const struct opti
   optind = 1;
   return -1;
 }
+// check_consistency() is main's self-test of the option table against the help texts (not part of the exit path): cut.
+extern "C" bool h_check_ok(void) { return true; }
 #define getopt_long h_getopt_long
 #define main dfs_real_main
 #include "/repo/dfs/main.cc"
